@@ -184,6 +184,9 @@ func translationParts(r *hx.Rand, children []ast.Node) []c14Part {
 				p.Cases = append(p.Cases, translationParts(r, pc.Body.Children()))
 			}
 			p.Cases = append(p.Cases, translationParts(r, c.Default.Children()))
+			if len(p.Cases) < 2 {
+				p.Cases = append(p.Cases, translationParts(r, c.Default.Children()))
+			}
 			ps = append(ps, p)
 		}
 	}
@@ -388,4 +391,12 @@ func jsRunNode(units []jsNodeUnit, tag string, prop string) ([]jsNodeUnitRes, er
 	os.Remove(inf)
 	os.Remove(outf)
 	return out.Units, nil
+}
+
+func readJSONFile(path string, v interface{}) error {
+	bs, err := os.ReadFile(path)
+	if err != nil {
+		return err
+	}
+	return json.Unmarshal(bs, v)
 }
